@@ -8,6 +8,7 @@ import Driver.Util
 import JanetModel.Parse.Model
 import JanetModel.PP.Jdn
 import JanetModel.Parse.Sm
+import JanetModel.Parse.Cap
 open Driver JanetModel.Parse JanetModel.PP JanetModel.Gen.Parse
 
 def hexOfB (bs : List B) : String := hexOfBytes (bs.map (·.toNat))
@@ -41,6 +42,7 @@ def sanitize (s : String) : String :=
 
 structure DRun where
   p : Parser
+  caps : Caps
   bytes : Array B
   pos : Nat
   eofoff : Nat
@@ -112,7 +114,7 @@ def logScan (scan : Scan) (r : DRun) (c : B) : DRun :=
 /-- one byte through janet_parser_consume (no dead check here) + status check + error protocol -/
 def byteD (scan : Scan) (r : DRun) (c : B) : DRun :=
   let r := logScan scan r c
-  let r := { r with p := consumeRaw scan r.p c, pos := r.pos + 1 }
+  let r := { r with p := consumeRaw scan r.p c, caps := consumeRawK scan r.caps r.p c, pos := r.pos + 1 }
   if (status r.p) == .error then handleErrorD r else r
 
 def opFeed (scan : Scan) (r : DRun) (n : Nat) (key : String) : DRun := Id.run do
@@ -147,15 +149,15 @@ def trInternals (r : DRun) : DRun :=
   let per := String.join ((fr.zip (List.range n)).map (fun (s, i) =>
     let argn : Int := if i == 0 then (s.argn : Int) - (p.pending : Int) else (s.argn : Int)
     s!":{consName s.consumer},{lowerHexNat s.flags},{s.counter},{argn},{s.line},{s.column}"))
-  { r with tr := r.tr.push (s!"@{r.label}:i={p.line}:{p.column}:{p.lookback}:{p.flag}:{n}:{p.buf.length}:" ++ hexOfB p.buf ++ per ++
-      s!":a{(p.args.length : Int) - (p.pending : Int)}") }
+  { r with tr := (r.tr.push (s!"@{r.label}:i={p.line}:{p.column}:{p.lookback}:{p.flag}:{n}:{p.buf.length}:" ++ hexOfB p.buf ++ per ++
+      s!":a{(p.args.length : Int) - (p.pending : Int)}")).push s!"cap:{r.caps.buf},{r.caps.states},{r.caps.args}" }
 
 def opEof (scan : Scan) (r : DRun) : DRun :=
   match checkDead r.p with
   | some msg => trPanic r "E" msg
   | none =>
     let r := logScan scan r 10
-    let r := { r with p := eof scan r.p, eofoff := 1000000 }
+    let r := { r with p := eof scan r.p, caps := eofK scan r.caps r.p, eofoff := 1000000 }
     let r := if status r.p == .error then handleErrorD r else r
     trStatus r "E"
 
@@ -166,11 +168,11 @@ def runOp (scan : Scan) (r : DRun) (op : Char) (n : Nat) : DRun :=
   | 'u' => opFeed scan r n "c"
   | 'b' => opFeed scan r n "b"
   | 'j' => opFeed scan r n "j"
-  | 'k' => { r with p := clone r.p }
+  | 'k' => { r with p := clone r.p, caps := cloneK r.p }
   | 'K' => r
   | 's' => trStatus r "s"
   | 'w' => trWhere r "w"
-  | 't' => trState r
+  | 't' => trState { r with caps := stateK r.caps r.p }
   | 'i' => trInternals r
   | 'h' => { r with tr := r.tr.push (if hasMore r.p then "h=1" else "h=0") }
   | 'p' => if hasMore r.p then produce1 r false else { r with tr := r.tr.push "p=nil" }
@@ -193,9 +195,10 @@ def runOp (scan : Scan) (r : DRun) (op : Char) (n : Nat) : DRun :=
     let r := match r.p.states with
       | top :: _ => if top.consumer == Consumer.tokenchar && (checkDead r.p).isNone then logScan scan r 32 else r
       | [] => r
+    let caps := insertK scan r.caps r.p v vs
     match insert scan r.p v vs with
-    | (p, some msg) => let r := trPanic { r with p := p } "I" msg; if status r.p == .error then handleErrorD r else r
-    | (p, none) => let r := { r with p := p }; if status r.p == .error then handleErrorD r else r
+    | (p, some msg) => let r := trPanic { r with p := p, caps := caps } "I" msg; if status r.p == .error then handleErrorD r else r
+    | (p, none) => let r := { r with p := p, caps := caps }; if status r.p == .error then handleErrorD r else r
   | 'L' =>
     match setWhere r.p (some (Int.ofNat n)) none with
     | .error msg => trPanic r "L" msg
@@ -226,7 +229,7 @@ def runCase (hex sched tab : String) : String :=
   | none => "bad-op"
   | some bs =>
     let scan := mkScan (parseTable tab)
-    let r0 : DRun := { p := Parser.init, bytes := (bs.map (·.toUInt8)).toArray, pos := 0, eofoff := 0, rawerr := false, nvalues := 0, ev := #[], tr := #[], numlog := #[] }
+    let r0 : DRun := { p := Parser.init, caps := Caps.init, bytes := (bs.map (·.toUInt8)).toArray, pos := 0, eofoff := 0, rawerr := false, nvalues := 0, ev := #[], tr := #[], numlog := #[] }
     let ops := (sched.splitOn ",").filter (· ≠ "")
     let r := ops.foldl (fun r o =>
       match o.toList with
